@@ -25,6 +25,7 @@ MC_Msgs == {
     M(<<>>, <<RR(NA, "ANY", "ANY", 0, 0), RR(NA, "IN", "CNAME", 300, 1)>>),  \* replace a's data by a CNAME
     M(<<>>, <<SOARR(AP, <<65535, 65535>>), RR(NB, "IN", "A", 300, 2)>>),     \* explicit SOA + add
     M(<<>>, <<RR(NA, "IN", "A", 300, 2), RR(NA, "NONE", "A", 0, 2)>>),       \* add and take back: serial moves only
-    M(<<>>, <<RR(NA, "CH", "A", 0, 1)>>)                                     \* prescan FORMERR
+    M(<<>>, <<RR(NA, "CH", "A", 0, 1)>>),                                    \* prescan FORMERR
+    M(<<>>, <<RR(NB, "IN", "A", 300, 1), RR(NB, "IN", "A", 300, 0)>>)        \* add + zone-class RR without RDATA
 }
 =============================================================================
